@@ -5,21 +5,16 @@
 package c10
 
 import (
-	"bufio"
 	"bytes"
 	"encoding/json"
 	"fmt"
 	"os"
-	"os/exec"
-	"path/filepath"
-	"regexp"
-	"sort"
-	"strconv"
 	"strings"
 	"testing"
 
 	"pgregory.net/rapid"
 
+	"verif/hermetic"
 	"verif/internal/ev"
 	"verif/stdgen"
 	"verif/stdh"
@@ -28,212 +23,22 @@ import (
 
 func TestMain(m *testing.M) { ev.Main(m) }
 
-var (
-	pubStructRE = regexp.MustCompile(`(?m)^pub struct ([a-z0-9_]+)`)
-	pubFuncRE   = regexp.MustCompile(`(?m)^pub func ([a-z0-9_]+)\.([a-z0-9_]+)[!?]?\(`)
-	priFuncRE   = regexp.MustCompile(`(?m)^pri func ([a-z0-9_]+)\.([a-z0-9_]+)[!?]?\(`)
-	constRE     = regexp.MustCompile(`(?m)^(pub|pri) const `)
-)
-
-type pkgInfo struct {
-	name                  string
-	expected              map[string]bool
-	private               map[string]bool
-	npub, npri, nconst    int
-}
-
-// scanSources computes, independently of the compiler, the set of function
-// symbols each std package may export.
-func scanSources(root string) (map[string]*pkgInfo, error) {
-	dirs, err := os.ReadDir(filepath.Join(root, "std"))
-	if err != nil {
-		return nil, err
-	}
-	out := map[string]*pkgInfo{}
-	for _, d := range dirs {
-		if !d.IsDir() {
-			continue
-		}
-		p := &pkgInfo{name: d.Name(), expected: map[string]bool{}, private: map[string]bool{}}
-		files, _ := filepath.Glob(filepath.Join(root, "std", d.Name(), "*.wuffs"))
-		for _, f := range files {
-			b, err := os.ReadFile(f)
-			if err != nil {
-				return nil, err
-			}
-			s := string(b)
-			for _, m := range pubStructRE.FindAllStringSubmatch(s, -1) {
-				p.expected["wuffs_"+p.name+"__"+m[1]+"__initialize"] = true
-				p.expected["wuffs_"+p.name+"__"+m[1]+"__alloc"] = true
-				p.expected["sizeof__wuffs_"+p.name+"__"+m[1]] = true
-			}
-			for _, m := range pubFuncRE.FindAllStringSubmatch(s, -1) {
-				p.expected["wuffs_"+p.name+"__"+m[1]+"__"+m[2]] = true
-				p.npub++
-			}
-			for _, m := range priFuncRE.FindAllStringSubmatch(s, -1) {
-				p.private["wuffs_"+p.name+"__"+m[1]+"__"+m[2]] = true
-				p.npri++
-			}
-			p.nconst += len(constRE.FindAllString(s, -1))
-		}
-		if len(files) > 0 {
-			out[p.name] = p
-		}
-	}
-	return out, nil
-}
-
-func tool(name string, args ...string) (string, error) {
-	out, err := exec.Command(name, args...).CombinedOutput()
-	return string(out), err
-}
-
-var allowedUndefined = map[string]bool{"memcpy": true, "memmove": true, "memset": true, "memcmp": true, "calloc": true, "free": true}
-
 // StaticCase names the object under inspection (for replay).
 type StaticCase struct {
 	Which string `json:"which"`
 }
 
-func checkStatic() (msgs []string, pkgs map[string]*pkgInfo, stats map[string]int) {
+func checkStatic() (msgs []string, pkgs map[string]*hermetic.PkgInfo, stats map[string]int) {
 	obj := os.Getenv("VERIF_SNAP_OBJ")
 	root := os.Getenv("VERIF_GEN_ROOT")
-	stats = map[string]int{}
 	if obj == "" || root == "" {
-		return []string{"INTERNAL: VERIF_SNAP_OBJ / VERIF_GEN_ROOT not set"}, nil, stats
+		return []string{"INTERNAL: VERIF_SNAP_OBJ / VERIF_GEN_ROOT not set"}, nil, map[string]int{}
 	}
-	pkgs, err := scanSources(root)
+	pkgs, err := hermetic.ScanSources(root)
 	if err != nil {
-		return []string{"INTERNAL: " + err.Error()}, nil, stats
+		return []string{"INTERNAL: " + err.Error()}, nil, map[string]int{}
 	}
-	// sections
-	sz, err := tool("size", "-A", obj)
-	if err != nil {
-		return []string{"INTERNAL: size: " + sz}, pkgs, stats
-	}
-	for _, l := range strings.Split(sz, "\n") {
-		f := strings.Fields(l)
-		if len(f) < 2 {
-			continue
-		}
-		n, _ := strconv.Atoi(f[1])
-		switch {
-		case f[0] == ".data" || f[0] == ".bss" || f[0] == ".tdata" || f[0] == ".tbss" || strings.HasPrefix(f[0], ".data.") && !strings.HasPrefix(f[0], ".data.rel.ro") || strings.HasPrefix(f[0], ".bss."):
-			if n != 0 {
-				msgs = append(msgs, fmt.Sprintf("writable section %s has %d bytes (the library must have no writable global or thread-local data)", f[0], n))
-			}
-			stats["writable-sections-inspected"]++
-		}
-	}
-	// symbols
-	nm, err := tool("nm", "-S", obj)
-	if err != nil {
-		return []string{"INTERNAL: nm: " + nm}, pkgs, stats
-	}
-	type fn struct {
-		addr, size uint64
-		name       string
-	}
-	var funcs []fn
-	globalT := map[string]bool{}
-	sc := bufio.NewScanner(strings.NewReader(nm))
-	for sc.Scan() {
-		f := strings.Fields(sc.Text())
-		switch len(f) {
-		case 2: // undefined / common without size: "U name"
-			if f[0] == "U" {
-				stats["undefined-symbols"]++
-				if !allowedUndefined[f[1]] {
-					msgs = append(msgs, fmt.Sprintf("undefined external symbol %s (only memcpy/memmove/memset/memcmp, and calloc/free from the alloc functions, are allowed)", f[1]))
-				}
-			}
-		case 3: // "addr type name" (no size)
-			if f[1] == "C" || f[1] == "B" || f[1] == "b" {
-				msgs = append(msgs, fmt.Sprintf("writable global %s (%s)", f[2], f[1]))
-			}
-		case 4:
-			addr, _ := strconv.ParseUint(f[0], 16, 64)
-			size, _ := strconv.ParseUint(f[1], 16, 64)
-			typ, name := f[2], f[3]
-			switch typ {
-			case "T", "t":
-				funcs = append(funcs, fn{addr, size, name})
-				if typ == "T" {
-					globalT[name] = true
-				}
-			case "B", "b", "C", "S", "s", "G", "g":
-				msgs = append(msgs, fmt.Sprintf("writable global %s (%s, %d bytes)", name, typ, size))
-			case "D", "d":
-				// allowed only when the symbol lives in a read-only-after-relocation section (checked through objdump -t below)
-				stats["data-symbols"]++
-			}
-		}
-	}
-	ot, _ := tool("objdump", "-t", obj)
-	for _, l := range strings.Split(ot, "\n") {
-		f := strings.Fields(l)
-		if len(f) >= 5 {
-			sec := f[len(f)-3]
-			if (sec == ".data" || sec == ".bss" || sec == "*COM*" || sec == ".tdata" || sec == ".tbss") && f[len(f)-1] != sec {
-				msgs = append(msgs, fmt.Sprintf("symbol %s lives in writable section %s", f[len(f)-1], sec))
-			}
-		}
-	}
-	// exported functions per package == the set computed from the sources
-	names := make([]string, 0, len(pkgs))
-	for n := range pkgs {
-		names = append(names, n)
-	}
-	sort.Strings(names)
-	for _, n := range names {
-		p := pkgs[n]
-		pre1, pre2 := "wuffs_"+n+"__", "sizeof__wuffs_"+n+"__"
-		for g := range globalT {
-			if strings.HasPrefix(g, pre1) || strings.HasPrefix(g, pre2) {
-				stats["exported-functions"]++
-				if !p.expected[g] {
-					why := "is not a pub method, initialize, alloc or sizeof of that package"
-					if p.private[g] {
-						why = "is declared pri in the Wuffs source"
-					}
-					msgs = append(msgs, fmt.Sprintf("package %s exports function %s, which %s", n, g, why))
-				}
-			}
-		}
-		for e := range p.expected {
-			if !globalT[e] {
-				msgs = append(msgs, fmt.Sprintf("package %s: expected exported function %s is missing from the object", n, e))
-			}
-		}
-	}
-	// calloc/free only from the alloc convenience functions
-	sort.Slice(funcs, func(i, j int) bool { return funcs[i].addr < funcs[j].addr })
-	rel, _ := tool("objdump", "-r", "-j", ".text", obj)
-	for _, l := range strings.Split(rel, "\n") {
-		f := strings.Fields(l)
-		if len(f) != 3 {
-			continue
-		}
-		sym := strings.SplitN(f[2], "-", 2)[0]
-		sym = strings.SplitN(sym, "+", 2)[0]
-		if sym != "calloc" && sym != "free" && sym != "malloc" && sym != "realloc" {
-			continue
-		}
-		off, err := strconv.ParseUint(f[0], 16, 64)
-		if err != nil {
-			continue
-		}
-		i := sort.Search(len(funcs), func(i int) bool { return funcs[i].addr > off }) - 1
-		stats["allocator-call-sites"]++
-		if i < 0 || !strings.Contains(funcs[i].name, "__alloc") {
-			where := "?"
-			if i >= 0 {
-				where = funcs[i].name
-			}
-			msgs = append(msgs, fmt.Sprintf("%s is called from %s (only the alloc convenience functions may allocate or free)", sym, where))
-		}
-	}
+	msgs, stats = hermetic.Inspect(obj, pkgs, false)
 	return msgs, pkgs, stats
 }
 
@@ -244,9 +49,9 @@ func TestStatic(t *testing.T) {
 	}
 	for n, p := range pkgs {
 		ev.Eval()
-		if p.npub >= 1 && p.npri >= 1 && p.nconst >= 1 {
+		if p.NPub >= 1 && p.NPri >= 1 && p.NConst >= 1 {
 			ev.Nontrivial(ev.Hash("pkg", n), func() any {
-				return map[string]any{"package": n, "pub_funcs": p.npub, "pri_funcs": p.npri, "consts": p.nconst, "expected_exports": len(p.expected)}
+				return map[string]any{"package": n, "pub_funcs": p.NPub, "pri_funcs": p.NPri, "consts": p.NConst, "expected_exports": len(p.Expected)}
 			})
 		}
 	}
